@@ -368,6 +368,7 @@ fn export<'tcx>(tcx: TyCtxt<'tcx>) -> J {
                     ("items", J::Arr(items)),
                     ("file", J::s(cx.file_of(item.span))),
                     ("ln", J::Int(line as i128)),
+                    ("exported", J::Bool(tcx.effective_visibilities(()).is_reachable(item.owner_id.def_id))),
                 ]));
             }
             hir::ItemKind::Mod(ident, _) => {
